@@ -452,7 +452,13 @@ class Sim:
         op = a[0]
         if op == 'c_send':
             if t.client is None:
-                t.client = self.sq.client()
+                try:
+                    t.client = self.sq.client()
+                except ConnectionRefusedError:
+                    if self.sq.alive():
+                        raise
+                    self.ev('squid-dead-at-connect', t.tag)
+                    return
                 self.clients.append(t.client)
             if a[2] > a[1] and not t.client.closed:
                 t.client.send(t.R[a[1]:a[2]])
